@@ -1,12 +1,18 @@
 use kolibrie::sparql_database::SparqlDatabase;
-use kolibrie::execute_query::{execute_sparql_query, execute_sparql_update};
+use std::collections::BTreeSet;
+fn den(db:&SparqlDatabase)->BTreeSet<(String,String,String)>{
+  db.query_default_triples(None,None,None).into_iter().map(|t|(db.decode_any(t.subject).unwrap(),db.decode_any(t.predicate).unwrap(),db.decode_any(t.object).unwrap())).collect()
+}
 fn main() {
-    for q in ["é", "SELECT ?x WHERE { ?x <p> ?y } é", "INSERT DATA { <a> <b> \"é\" } €", "SELECT ?x WHERE { ?x <p> \"é }", "SELECT é"] {
-        let mut db = SparqlDatabase::new();
-        let r = std::panic::catch_unwind(std::panic::AssertUnwindSafe(|| { let r = execute_sparql_query(q, &mut db); r.is_ok() }));
-        println!("query {:?} -> {:?}", q, r.map_err(|_| "PANIC"));
-        let mut db = SparqlDatabase::new();
-        let r = std::panic::catch_unwind(std::panic::AssertUnwindSafe(|| { let r = execute_sparql_update(q, &mut db); r.is_ok() }));
-        println!("update {:?} -> {:?}", q, r.map_err(|_| "PANIC"));
+    let lits = ["plain","he said \"hi\"\\ \n end","tab\there","","a\\","\"","x\ry","ünï 😀", "semi; comma, dot. end", "a \\\" b", "< > ^^ @en", "1.5", "true"];
+    let mut db = SparqlDatabase::new();
+    for (i,l) in lits.iter().enumerate() { db.add_triple_parts(&format!("http://e/s{}",i%3), "http://e/p", l); }
+    let want=den(&db);
+    for fmt in ["nt","nq","ttl"] {
+        let text = match fmt {"nt"=>db.generate_ntriples(),"nq"=>db.generate_nquads(),_=>db.generate_turtle()};
+        let mut db2=SparqlDatabase::new();
+        match fmt {"nt"=>db2.parse_ntriples_and_add(&text),"nq"=>db2.parse_nquads_and_add(&text),_=>db2.parse_turtle(&text)};
+        let got=den(&db2);
+        println!("{} roundtrip equal={} missing={:?} extra={:?}", fmt, got==want, want.difference(&got).collect::<Vec<_>>(), got.difference(&want).collect::<Vec<_>>());
     }
 }
